@@ -59,9 +59,12 @@ def rand_value(rng, t):
     return rng.choice(POOL[t])
 
 
-def gen_table(rng, name='t', max_rows=8, schema=SCHEMA):
+def gen_table(rng, name='t', max_rows=8, schema=SCHEMA, ties=False):
+    """Random table. ties=True draws from 2-3 values per column (heavy ties, for ordering)."""
     nrows = rng.choice([0, 1, 2, 3, 5, max_rows]) if max_rows <= 8 else rng.randint(0, max_rows)
-    nullp = {n: rng.choice([0, 0.2, 0.2, 0.6, 1.0]) for n, _ in schema}
+    if ties:
+        nrows = rng.randint(2, max_rows)
+    nullp = {n: rng.choice([0, 0.2, 0.2, 0.6, 1.0] if not ties else [0, 0.2, 0.3]) for n, _ in schema}
     rows = []
     for r in range(nrows):
         if rows and rng.random() < 0.25:
@@ -76,6 +79,8 @@ def gen_table(rng, name='t', max_rows=8, schema=SCHEMA):
                 row.append(r)
             elif rng.random() < nullp[n]:
                 row.append(None)
+            elif ties:
+                row.append(rng.choice(POOL[t][:3] if t != T_DEC else [D('1.0'), D('1.00'), D('-1.5')]))
             else:
                 row.append(rand_value(rng, t))
         rows.append(tuple(row))
@@ -291,3 +296,185 @@ def systematic_table(lt, rt=None, third=None, name='sys'):
     cols = [('k', T_INT)] + [(f'x{i}', t) for i, t in enumerate(types)]
     rows = [(n, *vals) for n, vals in enumerate(itertools.product(*pools))]
     return ModelTable(name, cols, rows)
+
+
+# ---------------------------------------------------------------------------
+# G3 statement shapes
+
+KEY_TYPES = [T_INT, T_DEC, T_STR, T_DATE, T_BOOL]
+ORDERABLE = [T_INT, T_DEC, T_STR, T_DATE, T_BOOL]
+
+
+class QueryGen:
+    """Random SELECT statements over the harness schema."""
+
+    def __init__(self, rng, max_depth=3, table='t', obj_keys=True):
+        self.rng = rng
+        self.table = table
+        self.g = ExprGen(rng, max_depth=max_depth)
+        self.obj_keys = obj_keys
+
+    # -- pieces
+    def key_expr(self):
+        rng = self.rng
+        t = rng.choice(KEY_TYPES + ([T_OBJ] if self.obj_keys and rng.random() < 0.15 else []))
+        if t == T_OBJ or rng.random() < 0.6:
+            return ir.col(rng.choice(COLS_BY_TYPE[t]), t)
+        return self.g.expr(t, rng.randint(2, 3))
+
+    def agg_call(self):
+        rng = self.rng
+        r = rng.random()
+        if r < 0.2:
+            return ir.agg('count', [], T_INT)
+        if r < 0.35:
+            t = rng.choice(ANY_TYPES)
+            return ir.agg('count', [self.g.expr(t, rng.randint(1, 2))], T_INT)
+        if r < 0.6:
+            t = rng.choice([T_INT, T_DEC])
+            return ir.agg('sum', [self.g.expr(t, rng.randint(1, 3))], t)
+        name = rng.choice(['min', 'max', 'first', 'last'])
+        t = rng.choice(ORDERABLE)
+        return ir.agg(name, [self.g.expr(t, rng.randint(1, 2))], t)
+
+    def agg_expr(self):
+        """An aggregate, or arithmetic over aggregates and constants."""
+        rng = self.rng
+        a = self.agg_call()
+        r = rng.random()
+        if r < 0.7:
+            return a
+        if a.type in NUMERIC_T:
+            b = self.agg_call()
+            if b.type in NUMERIC_T and rng.random() < 0.6:
+                op = rng.choice(['add', 'sub', 'mul', 'div'])
+                return ir.bin_(op, a, b, _BASE[(op, a.type, b.type)])
+            lit_t = rng.choice([T_INT, T_DEC])
+            op = rng.choice(['add', 'mul', 'div', 'sub'])
+            return ir.bin_(op, a, ir.lit(rng.choice([v for v in LITS[lit_t] if v >= 0]), lit_t), _BASE[(op, a.type, lit_t)])
+        if rng.random() < 0.5:
+            return ir.un('isnull', a, T_BOOL)
+        return ir.func('coalesce', [a, ir.lit(LITS[a.type][0], a.type)], a.type) if a.type in LITS else a
+
+    def having_expr(self):
+        rng = self.rng
+        r = rng.random()
+        if r < 0.4:
+            return ir.bin_(rng.choice(['gt', 'ge', 'lt', 'eq', 'ne']), ir.agg('count', [], T_INT), ir.lit(rng.choice([0, 1, 2, 3]), T_INT), T_BOOL)
+        if r < 0.7:
+            a = ir.agg(rng.choice(['sum', 'min', 'max', 'first', 'last']), [ir.col(rng.choice(['i', 'j']), T_INT)], T_INT)
+            return ir.bin_(rng.choice(['gt', 'le', 'ne']), a, ir.lit(rng.choice([0, 1, 2, 7]), T_INT), T_BOOL)
+        if r < 0.85:
+            a = self.agg_call()
+            return ir.un(rng.choice(['isnull', 'isnotnull']), a, T_BOOL)
+        return ir.and_(ir.bin_('ge', ir.agg('count', [], T_INT), ir.lit(1, T_INT), T_BOOL),
+                       ir.bin_('lt', ir.agg('max', [ir.col('d', T_DEC)], T_DEC), ir.lit(D('2.'), T_DEC), T_BOOL))
+
+    def where(self, p=0.5):
+        return self.g.expr(T_BOOL, self.rng.randint(1, 3)) if self.rng.random() < p else None
+
+    # -- statements
+    def simple(self, with_k=True):
+        rng = self.rng
+        targets = [ir.Target(ir.col('k', T_INT))] if with_k else []
+        used = {'k'} if with_k else set()
+        for i in range(rng.randint(1, 4)):
+            t = rng.choice(ANY_TYPES)
+            e = self.g.expr(t, rng.randint(1, 3))
+            alias = f'c{i}' if rng.random() < 0.5 else None
+            name = ir.target_name(ir.Target(e, alias))
+            targets.append(ir.Target(e, alias))
+            used.add(name)
+        return ir.Query(targets=targets, table=self.table, where=self.where())
+
+    def aggregate(self):
+        """Aggregate SELECT: keys by expression / name / position, visible or hidden,
+        explicit or implicit; 1-3 aggregate targets; optional HAVING."""
+        rng = self.rng
+        nkeys = rng.choice([0, 1, 1, 1, 2, 2, 3])
+        keys = [self.key_expr() for _ in range(nkeys)]
+        # drop structurally equal duplicates
+        uniq = []
+        for k in keys:
+            if all(k.key() != u.key() for u in uniq):
+                uniq.append(k)
+        keys = uniq
+        explicit = rng.random() < 0.75 or not keys
+        visible = [True] * len(keys) if not explicit else [rng.random() < 0.7 for _ in keys]
+        targets = []
+        key_pos = {}
+        for i, (k, vis) in enumerate(zip(keys, visible)):
+            if vis:
+                alias = f'g{i}' if rng.random() < 0.5 else None
+                targets.append(ir.Target(k, alias))
+        aggs = [self.agg_expr() for _ in range(rng.randint(1, 3))]
+        for i, a in enumerate(aggs):
+            targets.append(ir.Target(a, f'a{i}' if rng.random() < 0.6 else None))
+        # shuffle target order, keeping track of key positions
+        rng.shuffle(targets)
+        names = [ir.target_name(t) for t in targets]
+        group_by = None
+        having = None
+        if explicit and keys:
+            group_by = []
+            for k, vis in zip(keys, visible):
+                idxs = [i for i, t in enumerate(targets) if t.expr is k]
+                if vis and idxs:
+                    r = rng.random()
+                    name = names[idxs[0]]
+                    unique_name = names.count(name) == 1 and _ident_ok(name)
+                    if r < 0.35:
+                        group_by.append(ir.Key('index', idxs[0] + 1))
+                    elif r < 0.7 and unique_name and (targets[idxs[0]].alias is not None or k.kind == 'col'):
+                        group_by.append(ir.Key('name', name))
+                    else:
+                        group_by.append(ir.Key('expr', k))
+                else:
+                    group_by.append(ir.Key('expr', k))
+            rng.shuffle(group_by)
+            if rng.random() < 0.4:
+                having = self.having_expr()
+        return ir.Query(targets=targets, table=self.table, where=self.where(0.4), group_by=group_by, having=having)
+
+    def order_keys(self, q, nmax=4, aggregate=False):
+        """ORDER BY keys for q: by index, name or expression; visible or hidden."""
+        rng = self.rng
+        names = [ir.target_name(t) for t in q.targets]
+        keys = []
+        for _ in range(rng.randint(1, nmax)):
+            r = rng.random()
+            desc = rng.choice([None, False, True, True])
+            cand = [i for i, t in enumerate(q.targets) if t.expr.type in ORDERABLE]
+            if r < 0.3 and cand:
+                keys.append(ir.Key('index', rng.choice(cand) + 1, desc))
+            elif r < 0.55 and cand:
+                i = rng.choice(cand)
+                if names.count(names[i]) == 1 and _ident_ok(names[i]):
+                    keys.append(ir.Key('name', names[i], desc))
+                else:
+                    keys.append(ir.Key('index', i + 1, desc))
+            elif aggregate:
+                # a new aggregate expression, or one of the grouping expressions
+                gk = [t.expr for t in q.targets if not t.expr.has_agg() and t.expr.type in ORDERABLE]
+                if gk and rng.random() < 0.4:
+                    keys.append(ir.Key('expr', rng.choice(gk), desc))
+                else:
+                    a = self.agg_call()
+                    if a.type in ORDERABLE:
+                        keys.append(ir.Key('expr', a, desc))
+            else:
+                t = rng.choice(ORDERABLE)
+                e = ir.col(rng.choice(COLS_BY_TYPE[t]), t) if rng.random() < 0.6 else self.g.expr(t, rng.randint(2, 3))
+                keys.append(ir.Key('expr', e, desc))
+        return keys or None
+
+
+NUMERIC_T = (T_INT, T_DEC)
+RESERVED = {'and', 'as', 'asc', 'by', 'desc', 'distinct', 'false', 'from', 'group', 'having', 'in', 'is', 'limit',
+            'not', 'or', 'order', 'pivot', 'select', 'true', 'where', 'balances', 'journal', 'print', 'null',
+            'open', 'close', 'clear', 'on', 'between', 'at'}
+
+
+def _ident_ok(name):
+    import re
+    return bool(re.fullmatch(r'[a-z_][a-z0-9_]*', name)) and name not in RESERVED
